@@ -38,11 +38,14 @@ def check_next_frame(run, cx, cfg):
         rem = [(k, e) for k, e in evs if rp(e) == BT + 'remove' and e['args'][0] == ('ref', self_loc(fi))]
         ins = [(k, e) for k, e in evs if rp(e) == BT + 'insert' and e['args'][0] == ('ref', self_loc(fi))]
         exp = [(k, e) for k, e in evs if rp(e) in ('core::option::Option::<T>::expect', 'core::option::Option::<T>::unwrap')]
-        if len(rem) != 1 or not key_arg_is(p, rem[0][1]['args'][1], KEY) or len(exp) != 1 or exp[0][1]['args'][0] != ('ret', rem[0][0]) or not lens:
+        gets = [(k, e) for k, e in evs if rp(e) == VD + 'get' and e['args'][0] == ('ref', self_loc(bi))]
+        if len(rem) != 1 or not key_arg_is(p, rem[0][1]['args'][1], KEY) or len(exp) != 1 or exp[0][1]['args'][0] != ('ret', rem[0][0]) or not (lens or gets):
             bad = 'must take this output\'s offset with frames_read.remove(&key) and read buffer.len(): [%s]' % describe_path(p)
             break
-        FR, L = ('ret', exp[0][0]), ('ret', lens[0][0])
-        if lens[0][0] > rem[0][0] and any(rp(e) in (VD + 'push_back', VD + 'pop_front') for k, e in evs if k < lens[0][0]):
+        FR = ('ret', exp[0][0])
+        L = ('ret', lens[0][0]) if lens else None
+        probe = (lens or gets)[0][0]
+        if probe > rem[0][0] and any(rp(e) in (VD + 'push_back', VD + 'pop_front') for k, e in evs if k < probe):
             bad = 'buffer length read after modifying the buffer'
             break
         # R8 pairing: remove(key) is followed by insert(key, _) on every non-panicking return
@@ -57,6 +60,13 @@ def check_next_frame(run, cx, cfg):
                 behind = v[1]
             if c == ('op', 'Ge', FR, L) and v[0] == 'bool':
                 behind = not v[1]
+        got = None
+        if behind is None and len(gets) == 1 and gets[0][1]['args'][1] == FR:
+            # `match buffer.get(frames_read)`: Some(frame) exactly when frames_read < buffer.len()
+            dg = dict(cond_facts(p)).get(('discr', ('ret', gets[0][0])))
+            if dg is not None and dg[0] == 'int':
+                behind = dg[1] == 1
+                got = ('deref', ('field', ('variant', ('ret', gets[0][0]), 1), 0))
         if behind is None:
             bad = 'path not decided by `frames_read < buffer.len()`: [%s]' % describe_path(p)
             break
@@ -65,10 +75,10 @@ def check_next_frame(run, cx, cfg):
         frame = None
         if behind:
             idx = [(k, e) for k, e in evs if rp(e).endswith('core::ops::index::Index<usize>>::index') and e['args'] == [('ref', self_loc(bi)), FR]]
-            if pulls or pushes or len(idx) != 1:
+            if pulls or pushes or (len(idx) != 1 and got is None):
                 bad = 'an output that lags must read buffer[frames_read] and must not pull the source: [%s]' % describe_path(p)
                 break
-            frame = ('deref', ('ret', idx[0][0]))
+            frame = got if got is not None else ('deref', ('ret', idx[0][0]))
         else:
             if len(pulls) != 1 or pulls[0][1]['args'][0] != ('ref', self_loc(si)) or len(pushes) != 1 \
                     or pushes[0][1]['args'] != [('ref', self_loc(bi)), ('ret', pulls[0][0])] or pushes[0][0] < pulls[0][0]:
